@@ -84,7 +84,7 @@ theorem filter_mono {α : Type} (pop : List α) (ds ps ps' : List Nat) (h : AllL
           · simp only [h1, h2, decide_false, Bool.false_eq_true, if_false]
             exact ih xs ds
 
-theorem forall2_replicate (n p p' : Nat) (h : p ≤ p') :
+theorem allLe_replicate (n p p' : Nat) (h : p ≤ p') :
     AllLe (List.replicate n p) (List.replicate n p') := by
   induction n with
   | zero => exact .nil
@@ -94,7 +94,7 @@ theorem forall2_replicate (n p p' : Nat) (h : p ≤ p') :
 theorem filter_mono_scalar {α : Type} (pop : List α) (ds : List Nat) (p p' : Nat) (h : p ≤ p') :
     (filterProb pop ds (List.replicate pop.length p)).Sublist
       (filterProb pop ds (List.replicate pop.length p')) :=
-  filter_mono pop ds _ _ (forall2_replicate pop.length p p' h)
+  filter_mono pop ds _ _ (allLe_replicate pop.length p p' h)
 
 /-- probability 0 selects nobody -/
 theorem filter_zero {α : Type} (pop : List α) (ds ps : List Nat) (h : ∀ p ∈ ps, p = 0) :
@@ -173,9 +173,11 @@ theorem filterStream_common_draw (blk : String → Nat → Nat → Nat) (size : 
 /-- malformed probability arguments are refused, never silently re-aligned -/
 theorem broadcast_rejects (idx : List Sim) :
     (∀ ps, ps.length ≠ idx.length → broadcast idx (.list ps) = .error .length) ∧
+    (∀ ps, ps.length ≠ idx.length → ps.length ≠ 1 → broadcast idx (.tuple ps) = .error .length) ∧
     (∀ i ps, i ≠ idx → broadcast idx (.series i ps) = .error .labels) := by
-  constructor
+  refine ⟨?_, ?_, ?_⟩
   · intro ps h; simp [broadcast, h]
+  · intro ps h h1; simp [broadcast, h, h1]
   · intro i ps h; simp [broadcast, h]
 
 /-! ### choice: counting cumulative bins -/
@@ -434,7 +436,7 @@ theorem alignRows_ok (n : Nat) (rows out : List (List Nat)) (h : alignRows n row
     · cases h; exact Or.inr ⟨by assumption, rfl⟩
     · cases h
 
-theorem filter_isResidual_split (row : List Cell) :
+theorem spell_sum_split (row : List Cell) :
     (spell Q row).sum = rowSum row + residualCount row * (Q - rowSum row) := by
   unfold spell
   generalize Q - rowSum row = r
@@ -455,7 +457,7 @@ theorem filter_isResidual_split (row : List Cell) :
 /-- with the placeholder resolved the row sums to exactly 1 (`Q`) -/
 theorem spell_sum (Q : Nat) (row : List Cell) (h1 : residualCount row = 1) (hs : rowSum row ≤ Q) :
     (spell Q row).sum = Q := by
-  rw [filter_isResidual_split, h1]; omega
+  rw [spell_sum_split, h1]; omega
 
 theorem map_num_val (l : List Nat) : (l.map Cell.val).map Cell.num = l := by
   induction l with
@@ -515,6 +517,17 @@ theorem choice_residual (Q n : Nat) (m : List (List Cell)) (draws : List Nat) (D
         exact List.any_eq_true.mpr ⟨r, by simp, any_residual_of_count r (hcount r (by simp))⟩
   unfold choiceAll
   simp only [normalizeShape, h1, h2]
+
+/-- the stream-level `choice` decides with the COMMON draw of C02 (`getDraw` at the same seed string, numerators
+over 2^53) and nothing else -/
+theorem choiceStream_common_draw (blk : String → Nat → Nat → Nat) (size : Nat) (pos : Sim → Option Nat)
+    (ks : String) (Q n : Nat) (p : Weights) (idx : List Sim) (out : List Nat)
+    (h : choiceStream blk size pos ks Q n p idx = .ok out) :
+    ∃ ds, getDraw blk size pos ks idx = .ok ds ∧ choiceAll Q n p (ds.map (·.2.2)) (2 ^ 53) = .ok out := by
+  unfold choiceStream at h
+  cases hd : getDraw blk size pos ks idx with
+  | error e => simp [hd] at h
+  | ok ds => exact ⟨ds, rfl, by simpa [hd] using h⟩
 
 /-! ### choice: rejections -/
 
